@@ -51,9 +51,9 @@ Print Assumptions C02_schedule_no_raise.
    no switch or seek under way, audio agreeing), with consume off; and for play() from the
    stopped state (with a current track, and play(tlid) in a process that has not played yet).
    Further below: seek within the track and edits that leave the playing entry in place.
-   For play() while playing/paused on another track the clause is decided by the settled-run
-   agreement monitor and the correspondence only; seek from stopped and replaying the current
-   track under consume are recorded known findings. *)
+   With consume on the clause is decided by the settled-run agreement monitor and the
+   correspondence only; seek from stopped and replaying the current track under consume are
+   recorded known findings. *)
 Theorem C02_agreement_pause :
   forall shuf f c w, settled_on w c -> pstate w = Playing -> a_fresh w = false ->
   let w' := run_world shuf f w [Pause; Deliver; Deliver] in
@@ -78,8 +78,10 @@ Theorem C02_agreement_stop :
 Proof. exact stop_agreement. Qed.
 Print Assumptions C02_agreement_stop.
 
+(* play() while stopped or playing (while paused play() is resume, above): the current entry is
+   (re)started *)
 Theorem C02_agreement_play_stopped :
-  forall shuf f c w, settled_on w c -> pstate w = Stopped -> consume w = false -> accepts w c ->
+  forall shuf f c w, settled_on w c -> pstate w <> Paused -> consume w = false -> accepts w c ->
   let w' := run_world shuf (S f) w [Play None; Deliver; Deliver; Deliver; Deliver] in
   current w' = Some c /\ pstate w' = Playing /\ pending w' = None /\ queue w' = []
   /\ a_uri w' = Some (trk c) /\ a_state w' = Playing /\ World.tl w' = World.tl w.
@@ -94,6 +96,16 @@ Theorem C02_agreement_play_fresh :
   /\ a_uri w' = Some (trk x) /\ a_state w' = Playing /\ World.tl w' = World.tl w.
 Proof. exact play_fresh_agreement. Qed.
 Print Assumptions C02_agreement_play_fresh.
+
+(* play(tlid) while any entry is current, in any state: switch to that entry *)
+Theorem C02_agreement_play_tlid :
+  forall shuf f i x c w, settled_on w c -> consume w = false -> 1 <= i ->
+  find (fun y => tlid y =? i) (World.tl w) = Some x -> accepts w x ->
+  let w' := run_world shuf (S f) w [Play (Some i); Deliver; Deliver; Deliver; Deliver] in
+  current w' = Some x /\ pstate w' = Playing /\ pending w' = None /\ queue w' = []
+  /\ a_uri w' = Some (trk x) /\ a_state w' = Playing /\ World.tl w' = World.tl w.
+Proof. exact play_other_agreement. Qed.
+Print Assumptions C02_agreement_play_tlid.
 
 (* seek within the current track, playing or paused *)
 Theorem C02_agreement_seek :
